@@ -1,6 +1,7 @@
 package vm
 
 import (
+	"bytes"
 	"crypto/elliptic"
 	"encoding/binary"
 	"encoding/json"
@@ -1676,7 +1677,9 @@ func (v *VM) execute(ctx *Context, op opcode.Opcode, parameter []byte) (err erro
 
 	case opcode.CALLA:
 		ptr := v.estack.Pop().Item().(*stackitem.Pointer)
-		if ptr.ScriptHash() != ctx.ScriptHash() {
+		// A contract keeps its hash when it is updated, so the hash alone
+		// doesn't tell that the position belongs to the script being executed.
+		if ptr.ScriptHash() != ctx.ScriptHash() || !bytes.Equal(ptr.Script(), ctx.sc.prog) {
 			panic("invalid script in pointer")
 		}
 
